@@ -72,7 +72,7 @@ from hypothesis.stateful import initialize, invariant, precondition, rule
 from ..harness import Facet, RecordingMachine, Violation, exception_from_cut
 from .c18_entries import CATALOGUE, FAMILIES, Ctx, eligible
 from .c18_inventory import NOT_RUNNABLE, SKIP_MODULES, CallTracer, flag_report, inventory
-from .c18_world import ORIGINS, VARIANTS, World, detach, fingerprint, has_arrays, same
+from .c18_world import DEGENERATE, ORIGINS, VARIANTS, World, detach, fingerprint, has_arrays, same
 
 RULE = ("histories of <= 10 calls of public analysis entry points (catalogue of %d entries in %d families; measured API "
         "coverage in facet flag_coverage) on one shared world: d in {2,3}, N 8..16, 2..3 frames, K 1..5 species, box origin in "
@@ -295,10 +295,16 @@ def _pick(draw, seq, salt=0):
     return seq[_mix(draw(st.integers(0, 2 ** 16)) + salt) % len(seq)]
 
 
-# ordinary worlds 80 %, unusual-but-accepted inputs 20 % (c18_world.VARIANTS)
+_UNUSUAL = [v for v in VARIANTS if v != "plain" and v not in DEGENERATE]
+
+
 def _variant(k):
+    """55 % ordinary worlds, 20 % unusual-but-accepted inputs, 25 % degenerate worlds (results contain NaN / inf)."""
     k = _mix(k)
-    return VARIANTS[1 + (k // 5) % (len(VARIANTS) - 1)] if k % 5 == 4 else "plain"
+    r, k = k % 20, k // 20
+    if r < 11:
+        return "plain"
+    return _UNUSUAL[k % len(_UNUSUAL)] if r < 15 else DEGENERATE[k % len(DEGENERATE)]
 
 
 _KS = [1, 1, 2, 2, 2, 2, 3, 3, 3, 3, 4, 5]  # the 4- and 5-species g(r) / S(q) are slow: 1 world in 12 each
@@ -309,7 +315,8 @@ K_ST = st.integers(0, 2 ** 16).map(lambda k: _KS[_mix(k + 17) % len(_KS)])
 def world_tags(kw):
     return [f"d{kw['d']}", f"origin-{kw['origin']}", f"cell-{kw['cell']}", f"K{kw['K']}", f"T{kw['T']}",
             f"N{'8-11' if kw['N'] < 12 else '12-16'}", f"world-{kw.get('variant', 'plain')}",
-            "world-ordinary" if kw.get("variant", "plain") == "plain" else "world-off-domain"]
+            "world-ordinary" if kw.get("variant", "plain") == "plain" else
+            ("world-degenerate" if kw.get("variant") in DEGENERATE else "world-off-domain")]
 
 
 # ============================================================================= history facet
@@ -674,9 +681,9 @@ def describe_chain(case):
 
 # ============================================================================= inventory / flag coverage / deterministic sweep
 
-def _sweep_world(root, **kw):
-    """The first world (seeds 0, 1, ...) in which Dynamics.sq4 is applicable with and without a condition."""
-    for seed in range(200):
+def _sweep_world(root, seed0=0, **kw):
+    """The first world (seeds seed0, seed0 + 1, ...) in which Dynamics.sq4 is applicable with and without a condition."""
+    for seed in range(seed0, seed0 + 200):
         w = World(root=root, seed=seed, **kw)
         if w.sq4_ok and w.sq4_ok_cond:
             return w
@@ -687,6 +694,7 @@ def _sweep_world(root, **kw):
 # (output files on/off too?, families or None = all): "full" worlds run every (entry, params, output on/off); the others
 # every (entry, params) of the named families without output files
 _TIME = ("dyn", "boo", "s2", "nematic", "vec", "cg")
+_NONFINITE = ("dyn", "pair", "vec", "cg", "nematic", "boo", "s2", "misc")
 _KARY_ONLY = ("gr.getresults", "gr.k-ary", "sq.getresults", "sq.k-ary")  # entry names: the methods that depend on K
 SWEEP_WORLDS = [
     (True, None, dict(d=2, N=8, T=3, K=2, origin="arbitrary", cell="ortho", variant="plain")),
@@ -702,6 +710,12 @@ SWEEP_WORLDS = [
     (False, ("pair", "s2", "dyn", "neigh"), dict(d=3, N=8, T=3, K=2, origin="zero", cell="ortho", variant="perm-types")),
     (False, ("pair", "s2", "dyn", "neigh", "order", "hess", "voro"), dict(d=2, N=8, T=2, K=2, origin="centred", cell="ortho", variant="int32-types")),
     (False, ("pair", "neigh", "voro", "boo", "dyn", "order", "s2"), dict(d=3, N=8, T=2, K=2, origin="sumzero", cell="ortho", variant="noncontig")),
+    # degenerate worlds: NaN / inf in the results -> with output files, and a second pass (repeats) like the full worlds
+    (True, _NONFINITE, dict(d=2, N=8, T=3, K=2, origin="zero", cell="ortho", variant="pinned")),
+    (True, _NONFINITE, dict(d=3, N=8, T=3, K=1, origin="arbitrary", cell="ortho", variant="revisit")),
+    (True, _NONFINITE, dict(d=2, N=8, T=3, K=2, origin="centred", cell="tri", variant="revisit", seed0=1)),
+    (True, _NONFINITE, dict(d=3, N=8, T=3, K=2, origin="zero", cell="ortho", variant="zerofield")),
+    (True, _NONFINITE, dict(d=2, N=8, T=2, K=1, origin="zero", cell="ortho", variant="zerofield")),
 ]
 
 
